@@ -220,6 +220,34 @@ pub fn programs() -> Vec<Prog8> {
             }
         }
     }
+    // captures that reach the same heap object more than once (shared rows, two names for one array,
+    // a tuple / struct holding one array twice): EVERY occurrence must be a copy. Whether the copy
+    // preserves the sharing between occurrences is not specified, so the task only reports the
+    // occurrence it mutated.
+    let head = "use vh\nlet go: channel<int> = channel()\nlet back: channel<int> = channel()\n";
+    let tail = "go.write(0)\nlet tv = back.read()\nvh_emit_int(tv)\n";
+    for (occ, idx) in [("first", 0), ("second", 1)] {
+        out.push(Prog8 {
+            name: format!("capture array holding one row twice | task: mutates the {occ} occurrence | spawner: reads"),
+            text: format!("{head}let row = [0, 0]\nlet grid = [row, row]\ntask {{\n  let g = go.read()\n  grid[{idx}][1] = 9\n  back.write(grid[{idx}][1])\n}}\n{tail}vh_emit_int(row[1] * 100 + grid[0][1] * 10 + grid[1][1])\n"),
+            expect: vec![Emit::Int(9), Emit::Int(0)],
+        });
+        out.push(Prog8 {
+            name: format!("capture tuple holding one array twice | task: mutates the {occ} component | spawner: reads"),
+            text: format!("{head}let a = [1]\nlet t = (a, a)\ntask {{\n  let g = go.read()\n  let (p, q) = t\n  {}[0] = 9\n  back.write({}[0])\n}}\n{tail}vh_emit_int(a[0])\n", ["p", "q"][idx], ["p", "q"][idx]),
+            expect: vec![Emit::Int(9), Emit::Int(1)],
+        });
+        out.push(Prog8 {
+            name: format!("capture two names for one array | task: mutates through the {occ} name | spawner: reads"),
+            text: format!("{head}let a = [1]\nlet b = a\ntask {{\n  let g = go.read()\n  let keep = a.len() + b.len()\n  {}[0] = 9\n  back.write({}[0])\n}}\n{tail}vh_emit_int(a[0] * 10 + b[0])\n", ["a", "b"][idx], ["a", "b"][idx]),
+            expect: vec![Emit::Int(9), Emit::Int(11)],
+        });
+        out.push(Prog8 {
+            name: format!("capture struct whose two fields hold one array | task: mutates the {occ} field | spawner: reads"),
+            text: format!("{head}type Two = {{\n  l: array<int>\n  r: array<int>\n}}\nlet a = [1]\nlet s = Two(a, a)\ntask {{\n  let g = go.read()\n  s.{}[0] = 9\n  back.write(s.{}[0])\n}}\n{tail}vh_emit_int(a[0] * 100 + s.l[0] * 10 + s.r[0])\n", ["l", "r"][idx], ["l", "r"][idx]),
+            expect: vec![Emit::Int(9), Emit::Int(111)],
+        });
+    }
     // channels are the exception: a captured channel is the same channel (two-way traffic through captured channels)
     out.push(Prog8 {
         name: "capture channel | both ends shared".into(),
